@@ -21,8 +21,14 @@ FLOORS_C07 = {
     "ok_index_ge_256": 150, "ok_selector_index_ge_10": 400, "ok_variadic_param": 100, "ok_deref_non_gp64": 80,
     "vars_of_componentless_kind": 80, "gen_embedded_fields": 200,
     "paths_invalid_i": 3000, "paths_invalid_f": 3000, "paths_invalid_selector": 3000,
-    "paths_invalid_negative_index": 300, "paths_invalid_negative_selector": 1000,
+    "paths_invalid_negative_index": 300, "paths_invalid_negative_selector": 1000, "paths_invalid_promoted_field": 150,
+    "paths_invalid_promoted_field_behind_embedded_pointer": 30,
     "lookup_by_default_name": 500, "sizes_lines": 5000,
+    # families: one process, one package path, one expression text, different definitions of the names it mentions
+    "families": 150, "family_same_text_different_definition": 150,
+    "family_same_text_different_definition_both_parsed_in_package": 60, "family_same_text_different_argsize": 80,
+    "family_same_package_object_same_text_again": 50, "family_same_package_object_other_expression": 100,
+    "family_nil_package_checks": 300,
 }
 # histories on one build.Context (c07h), for a run of 600 histories: about a quarter of what the generator produces
 FLOORS_C07H = {
@@ -167,6 +173,8 @@ def run(ctx):
         else:
             ctx.discharged += 1
         _floors(ctx, "c07x" + tag, st, FLOORS_C07X, n)
+        # packages on disk through Context.Package / Implement / SignatureExpr: a fixed number per run
+        _floors(ctx, "c07x" + tag + " disk", st, {"disk_families": 2, "disk_family_members": 6}, 1)
     ctx.coverage["rule"] = (
         "hand-picked corpus lines, then generated signatures: nested structs with padding, blank, zero-size and trailing "
         "zero-size fields, embedded fields (defined, alias and pointer-to-defined types), arrays of structs, arrays of "
@@ -179,13 +187,24 @@ def run(ctx):
         "signatures, through the package-level build.Param/ParamIndex/Return/ReturnIndex on a build.Context holding the "
         "signature; x component paths of every parameter/result (every path for one signature in 16 and for the corpus, "
         "else up to 40 sampled per variable; indices of large arrays sampled; Dereference through every 64-bit GP "
-        "register and AL/X0/Y3) x invalid continuations (wrong kind, missing field, index = len, > len, huge, negative; "
+        "register and AL/X0/Y3) x invalid continuations (wrong kind, missing field, every name Go would promote from an "
+        "embedded struct or embedded pointer, index = len, > len, huge, negative; "
         "steps after an error; invalid selectors; Lookup by a default name): the real gotypes API's (symbol, "
         "displacement, base, basic type) or error vs the Lean model (exact), and the implementation's own result judged "
         "by the acceptor ResolveSpec/MustResolve against the independently written asmdecl layout — the offset is pinned "
         "by walking the type tree (pathComps), not by the flattened name alone; Bytes() and the printed TEXT size vs "
         "asmdecl's argument size; model sizeof/alignof/offsetsof vs go/types gc/amd64 on every generated type and vs the "
         "compiler (reflect) on a sample; go vet -asmdecl and execution on generated stub+asm pairs. "
+        "Families (one in ten generated signatures): in the one harness process, the signature's expression text "
+        "evaluated (a) in its package, (b) in another type-checked package of the SAME import path in which defined/alias "
+        "types of the same names are defined differently (fields reordered, a field of another type, a leading field, "
+        "another basic kind, another array length), (c) in the first package again (the same *types.Package object when "
+        "parsed), (d) another expression in the first package — each through ParseSignatureInPackage, LookupSignature or "
+        "NewSignature (3 in 5 families: all through ParseSignatureInPackage), a quarter installed in a build.Context; "
+        "between (a) and (b) the same text through ParseSignature / Context.SignatureExpr / build.SignatureExpr without a "
+        "package must be an error; every member is judged like any signature, on its own definitions. On disk (c07x): "
+        "three families of `package main` directories of one module path loaded through the real Context.Package "
+        "(packages.Load) and Implement / Function+SignatureExpr, methods and package-level functions. "
         "Histories on ONE build.Context (c07h): 1..4 functions per Context with the same / a shifted / a rotated / a fresh "
         "signature over a small pool of names, per function 3..12 calls among GP8..GP64/XMM allocation, Load/Store of "
         "scalar components into registers of the component's size, Dereference of pointer components (the same one "
@@ -235,6 +254,6 @@ def run(ctx):
         "names a virtual register by the call that first showed it; the register a component returned by Dereference is "
         "based on is observed by resolving a scalar of the pointee (a pointee without any scalar is not observable); the "
         "basic type in accept-hresolve lines is Resolve's (the emitted instruction does not carry it)",
-        "build.Implement itself (packages.Load of a package on disk) is not called: its route LookupSignature is, on a "
-        "package type-checked in memory",
+        "build.Package/Implement (packages.Load of a package on disk) are called on three small families per run (c07x); "
+        "the bulk of the signatures goes through LookupSignature / ParseSignatureInPackage on packages type-checked in memory",
     ]
